@@ -11,7 +11,10 @@ if [ -n "$(git status --porcelain)" ]; then echo "/repo is dirty" >&2; exit 2; f
 cd /verif || exit 2
 DIRTY="$(git status --porcelain evidence replays)"
 cd /repo && git apply "$P" || { echo "patch does not apply" >&2; exit 2; }
-cd /verif && VERIF_BUDGET_S="$B" ./check "$ID" 2>&1 | grep -v "^  replay [0-9]" | cut -c1-600 | tail -12
+# (violation lines first: a long stack trace in a message must not push them out of the tail)
+cd /verif && VERIF_BUDGET_S="$B" ./check "$ID" > build/try_seed.out 2>&1
+grep -E "^VIOLATION|^  class=|^KNOWN-FINDING|harness trouble" build/try_seed.out | cut -c1-300 | head -40
+grep -v "^  replay [0-9]" build/try_seed.out | cut -c1-600 | tail -6
 git -C /repo checkout -- . && git -C /repo clean -fdq -- . 2>/dev/null
 if [ -z "$DIRTY" ]; then
   mkdir -p build/seed-replays
